@@ -269,6 +269,8 @@ func runC05(c *Ctx) {
 	}
 	c.Floor("C05.S5-decode-preserves-signed-fields", 1)
 	decodedHandedOnAsDecoded(c, "C05.S5-decoded-handed-on")
+	structsMirrorSchemaOrder(c, "C05.S5-fields-travel-under-their-names", schemaPkg, "Advertisement", "Provider", "ExtendedProvider")
+	c.Floor("C05.S5-fields-travel-under-their-names", 3)
 
 	// ---- S3 verification gates --------------------------------------------------------------------
 	c05Verify(c, verify, adPay, epPay)
@@ -562,6 +564,15 @@ func c05Verify(c *Ctx, verify, adPay, epPay *Fn) {
 		for _, fct := range c.FactsAt(b) {
 			if !fct.Val && c05MainSeenWitness(c, fct.Cond) {
 				notSeen = true
+			}
+			// slices.IndexFunc(providers, isMain) < 0: not found
+			if m, isLt := Match(Op("binop", "<", Bind("ix"), Const("0")), fct.Cond); isLt && fct.Val {
+				if ix := strip(m["ix"]); ix != nil && ix.Op == "call" && strings.Contains(ix.Name, "slices.IndexFunc") && len(ix.Args) == 2 {
+					as := &X{Op: "call", Name: strings.Replace(ix.Name, "slices.IndexFunc", "slices.ContainsFunc", 1), Args: ix.Args, V: ix.V}
+					if c05MainSeenWitness(c, as) {
+						notSeen = true
+					}
+				}
 			}
 		}
 		_, some := c.GuardedB(b, Op("binop", ">", Op("builtin", "len", Field("Providers", Any())), Const("0")), true)
